@@ -181,6 +181,44 @@ def run_more(chk, repo, dm):
                                       'before and gets time after dose 0')
     if n14 == 0:
         raise AnalysisError('Q14: no key over the id and the time column found in get_doseid')
+    # Q15: a test on the steady-state column holds for every steady-state code (SS = 1, 2 and 3), not for SS = 0
+    Q15 = chk.rule('Q15', 'tests on the SS column treat SS = 1, 2 and 3 alike (all are steady-state doses) and SS = 0 as not',
+                   floor=1)
+    n15 = 0
+    for f in dm.functions.values():
+        ssn = {n.targets[0].id for n in walk_no_nested(f.node) if isinstance(n, ast.Assign) and len(n.targets) == 1
+               and isinstance(n.targets[0], ast.Name) and "typeix['ss']" in unparse(n.value)}
+        if not ssn:
+            continue
+        for cmp_ in [x for x in ast.walk(f.node) if isinstance(x, ast.Compare) and len(x.ops) == 1]:
+            sides = [cmp_.left, cmp_.comparators[0]]
+            col = [x for x in sides if isinstance(x, ast.Subscript)
+                   and any(isinstance(y, ast.Name) and y.id in ssn for y in ast.walk(x.slice))]
+            const = [x for x in sides if isinstance(x, ast.Constant) and isinstance(x.value, (int, float))
+                     and not isinstance(x.value, bool)]
+            if len(col) != 1 or len(const) != 1:
+                continue
+            got = set()
+            for v in (0, 1, 2, 3):
+                test = ast.Compare(left=ast.Name(id='_v', ctx=ast.Load()) if col[0] is cmp_.left else cmp_.left,
+                                   ops=cmp_.ops,
+                                   comparators=[cmp_.comparators[0] if col[0] is cmp_.left else ast.Name(id='_v', ctx=ast.Load())])
+                try:
+                    if T_.eval_pred(test, {'_v': v}):
+                        got.add(v)
+                except T_.Undecidable as e:
+                    raise AnalysisError(f'Q15: cannot evaluate {unparse(cmp_)}: {e}')
+            n15 += 1
+            ok = got in ({1, 2, 3}, {0})
+            chk.instance(Q15, f'{f.name}: `{unparse(cmp_)}` holds for SS in {sorted(got)}')
+            if not ok:
+                chk.violation(Q15, dm.rel, f.name, unparse(cmp_),
+                              f'the test separates the steady-state codes: it holds for SS in {sorted(got)}; NM-TRAN treats SS = 1, '
+                              f'2 and 3 as steady-state doses', line=cmp_.lineno,
+                              witness='a dose with SS=2 and an observation at the same time: the observation is moved to the '
+                                      'previous dose period and gets the time after dose of the dose before')
+    if n15 == 0:
+        raise AnalysisError('Q15: no test on the steady-state column found')
     # Q5: assignments X['_FLAG'] = X[<event column>] <op> <const> in functions that build '_RESETGROUP'
     sets_ = {}
     for f in dm.functions.values():
